@@ -24,7 +24,18 @@ def initial_state(open_test=True):
                   ("self._test_tags", ("tuple", L_NEW, L_GONE)), ("ev.calls", ())])
 
 
-def run_method(ctx, name, argv, st=None, may_raise=True):
+class TfrDomain(effects.EffectDomain):
+    """EffectDomain plus a table of truth values for the symbolic tag sets (is this buffer half empty?)."""
+
+    truths = {}
+
+    def truth(self, value):
+        if value in self.truths:
+            return self.truths[value]
+        return super().truth(value)
+
+
+def run_method(ctx, name, argv, st=None, may_raise=True, truths=None):
     classes = ctx.classes
     tfr = classes.get(REAL, TFR)
     owner, f = classes.resolve_method(tfr, name)
@@ -38,10 +49,13 @@ def run_method(ctx, name, argv, st=None, may_raise=True):
             return [("val", "True"), ("val", "False", "not-acquired")]   # a non-blocking acquire may fail
         if n.startswith("sem."):
             return [("val", "True" if n == "sem.acquire" else NONE)]
+        if n.startswith("own."):
+            return [("val", NONE)]
         return None
 
-    dom = effects.EffectDomain(classes, attrs={"self.semaphore": ("wobj", "sem"), "self.result": ("wobj", "t"), "self": ("self",)},
-                               results={"self._now": [NOW]}, oracle=oracle, log_reads=DATA_ATTRS, log_cap=24)
+    dom = TfrDomain(classes, attrs={"self.semaphore": ("wobj", "sem"), "self.result": ("wobj", "t"), "self._tags": ("wobj", "own"), "self": ("self",)},
+                    results={"self._now": [NOW]}, oracle=oracle, log_reads=DATA_ATTRS, log_cap=24, ctors={"_merge_tags"})
+    dom.truths = dict(truths or {})
     return f, effects.run(ctx, dom, f, tfr, argv, state=st if st is not None else initial_state(), depth=7)
 
 
@@ -71,3 +85,65 @@ def lock_problems(log):
 
 def target_calls(log):
     return [(n[2:], pos, kw, tag) for n, pos, kw, tag in log if n.startswith("t.")]
+
+
+def tag_routing_problems(ctx):
+    """tags() changes the per-test buffer iff a test is open, else the run-level buffer, and always the
+    forwarder's own context; nothing is sent to the target (the change is replayed inside the block)."""
+    n_, g_ = ("arg", "new"), ("arg", "gone")
+    problems = set()
+    f = None
+    examined = 0
+    for open_test in (True, False):
+        f, res = run_method(ctx, "tags", {"new_tags": n_, "gone_tags": g_}, st=initial_state(open_test), may_raise=False)
+        where = "with a test open" if open_test else "with no test open"
+        normal = [r for r in res if r.kind == "val"]
+        examined += len(res)
+        if not normal or len(normal) != len(res):
+            problems.add(f"tags() does not return normally {where}")
+        g0, l0 = ("tuple", G_NEW, G_GONE), ("tuple", L_NEW, L_GONE)
+        for r in normal:
+            g1, l1 = r.state.get("self._global_tags", None), r.state.get("self._test_tags", None)
+            changed, kept, (c0, c1), (k0, k1) = ("per-test", "run-level", (l0, l1), (g0, g1)) if open_test else ("run-level", "per-test", (g0, g1), (l0, l1))
+            if k1 != k0:
+                problems.add(f"{where} the change is written to the {kept} buffer")
+            if c1 == c0:
+                problems.add(f"{where} the change is not recorded in the {changed} buffer")
+            elif isinstance(c1, tuple) and c1[:2] == ("new", "_merge_tags"):
+                if tuple(c1[2]) != (c0, ("tuple", n_, g_)) or c1[3]:
+                    problems.add(f"{where} the {changed} buffer becomes _merge_tags{tuple(c1[2])!r}: expected the merge of the old buffer with (new_tags, gone_tags)")
+            log = r.state.get("ev.calls", ())
+            if target_calls(log):
+                problems.add(f"tags() talks to the shared target {where} (outside the per-test block)")
+            own = [e for e in log if e[0] == "own.change_tags"]
+            if len(own) != 1 or own[0][1] != (n_, g_):
+                problems.add(f"{where} the forwarder's own context is not updated with (new_tags, gone_tags): current_tags would not reflect the change")
+    return f, sorted(problems), examined
+
+
+def tag_replay_problems(ctx, method="addSuccess"):
+    """The block replays the run-level buffer, then the test's own buffer, each iff it is not empty, unmerged."""
+    problems = set()
+    f = None
+    examined = 0
+    halves = [("T", "F"), ("F", "T"), ("T", "T"), ("F", "F")]
+    for gt in halves:
+        for lt in halves:
+            truths = {G_NEW: gt[0], G_GONE: gt[1], L_NEW: lt[0], L_GONE: lt[1]}
+            f, res = run_method(ctx, method, {"test": T_}, may_raise=False, truths=truths)
+            examined += len(res)
+            want = ([(G_NEW, G_GONE)] if "T" in gt else []) + ([(L_NEW, L_GONE)] if "T" in lt else [])
+            for r in res:
+                if r.kind != "val":
+                    continue
+                calls_ = target_calls(r.state.get("ev.calls", ()))
+                got = [c_[1] for c_ in calls_ if c_[0] == "tags"]
+                if got != want:
+                    def show(seq):
+                        return [("run-level buffer" if a == (G_NEW, G_GONE) else "per-test buffer" if a == (L_NEW, L_GONE) else repr(a)) for a in seq]
+                    problems.add(f"with run-level buffer {'non-empty' if 'T' in gt else 'empty'} and per-test buffer {'non-empty' if 'T' in lt else 'empty'} the block replays "
+                                 f"{show(got)}; expected {show(want)}")
+                names = [c_[0] for c_ in calls_]
+                if "tags" in names and (method not in names or max(i for i, x in enumerate(names) if x == "tags") > names.index(method) or names.index("startTest") > names.index("tags")):
+                    problems.add("tags are replayed outside startTest .. outcome: the target would attribute them to the wrong scope")
+    return f, sorted(problems), examined
